@@ -144,6 +144,39 @@ impl std::io::Write for Trickle {
     }
 }
 
+struct BoundedFmt {
+    cap: usize,
+    got: String,
+}
+
+impl std::fmt::Write for BoundedFmt {
+    fn write_str(&mut self, s: &str) -> std::fmt::Result {
+        if self.got.len() + s.len() > self.cap {
+            return Err(std::fmt::Error);
+        }
+        self.got.push_str(s);
+        Ok(())
+    }
+}
+
+struct BoundedIo {
+    cap: usize,
+    got: Vec<u8>,
+}
+
+impl std::io::Write for BoundedIo {
+    fn write(&mut self, buf: &[u8]) -> std::io::Result<usize> {
+        if self.got.len() + buf.len() > self.cap {
+            return Err(std::io::Error::new(std::io::ErrorKind::Other, "record does not fit"));
+        }
+        self.got.extend_from_slice(buf);
+        Ok(buf.len())
+    }
+    fn flush(&mut self) -> std::io::Result<()> {
+        Ok(())
+    }
+}
+
 pub fn check_style(st: SgrState, with_grid: bool) -> Result<(), (String, String)> {
     let style = style_of(st);
     if state_of(style) != st {
@@ -175,6 +208,29 @@ pub fn check_style(st: SgrState, with_grid: bool) -> Result<(), (String, String)
         style.write_to(&mut t).map_err(|e| ("c05:style:write_to-error".to_string(), format!("writer kind {kind}: {e}")))?;
         if t.got != disp.as_bytes() {
             return Err(("c05:style:write_to-short-writes".into(), format!("write_to into a writer of kind {kind} (1 byte / 3 bytes per call, interrupted, vectored) delivered {:?}, Display gives {:?}", show(&t.got), show(disp.as_bytes()))));
+        }
+    }
+    // sinks of fixed capacity that refuse a piece that does not fit and stay usable (ArrayString-like): a call that
+    // reports success delivered the whole rendering
+    let full = disp.len();
+    for cap in [full.wrapping_sub(1), full.wrapping_sub(2), 4, 5, 6, 8, 9, 10, 14, full] {
+        if cap > full {
+            continue;
+        }
+        use std::fmt::Write as _;
+        let mut b = BoundedFmt { cap, got: String::new() };
+        let r = write!(b, "{style}");
+        let mut b2 = BoundedFmt { cap, got: String::new() };
+        let r2 = write!(b2, "{}", style.render());
+        let mut io = BoundedIo { cap, got: vec![] };
+        let r3 = style.write_to(&mut io);
+        for (what, ok, got) in [("Display", r.is_ok(), b.got.as_bytes()), ("render()", r2.is_ok(), b2.got.as_bytes()), ("write_to", r3.is_ok(), &io.got[..])] {
+            if ok && got != disp.as_bytes() {
+                return Err(("c05:style:success-with-partial-rendering".into(), format!("{what} into a sink with room for {cap} bytes reported success with {:?}; the rendering is {:?}", show(got), show(disp.as_bytes()))));
+            }
+            if !ok && cap >= full {
+                return Err(("c05:style:error-without-cause".into(), format!("{what} into a sink with room for {cap} bytes (rendering: {full} bytes) reported an error")));
+            }
         }
     }
     // the alternate flag belongs to Style itself: on the value returned by render() it changes nothing
@@ -359,9 +415,11 @@ pub fn run(cfg: &Cfg) -> Stats {
     let mut st = par(cfg, |shard, n| {
         let mut st = Stats::new();
         let mut k = 0u64;
+        // (interpreter lanes: one case in eight of every enumerated family)
+        let stride = if cfg.tier == Tier::Tiny { 8 * n } else { n };
         let mut mine = || {
             k += 1;
-            k % n == shard
+            k % stride == shard
         };
         if shard == 0 {
             st.eval();
@@ -449,6 +507,37 @@ pub fn run(cfg: &Cfg) -> Stats {
                         _ => s.ul = Some(c),
                     }
                     eval_style(s, false, &mut st, true);
+                }
+            }
+        }
+        // the same colour in two or three slots, next to a different one (renderers that reuse an encoded colour): every
+        // assignment of {c, d, none} to the three slots for colour pairs of every kind
+        {
+            let mut pairs: Vec<(Col, Col)> = vec![
+                (Col::Rgb(10, 20, 30), Col::Rgb(200, 100, 0)),
+                (Col::Rgb(255, 255, 255), Col::P16(1)),
+                (Col::Rgb(0, 0, 0), Col::Idx(200)),
+                (Col::Idx(9), Col::Idx(196)),
+                (Col::P16(3), Col::P16(11)),
+                (Col::P16(5), Col::Idx(5)),
+                (Col::Idx(17), Col::Rgb(0, 0, 95)),
+            ];
+            for _ in 0..6 {
+                pairs.push((Col::Rgb(rng.byte(), rng.byte(), rng.byte()), rand_col(&mut rng).unwrap_or(Col::P16(2))));
+            }
+            for (c, d) in pairs {
+                for code in 0..27u8 {
+                    if !mine() {
+                        continue;
+                    }
+                    let slot = |k: u8| match k {
+                        0 => None,
+                        1 => Some(c),
+                        _ => Some(d),
+                    };
+                    for fx in [0u16, 1, 0b1000_0000_1010] {
+                        eval_style(SgrState { fg: slot(code % 3), bg: slot(code / 3 % 3), ul: slot(code / 9), fx }, false, &mut st, true);
+                    }
                 }
             }
         }
